@@ -531,6 +531,9 @@ def minimise(mod, ctx, v, limit=150):
 
 
 def do_run(mod, modname, tier, seed, b, scratch, t0):
+    import glob
+    for old in glob.glob(os.path.join(VERIF, 'replays', '%s-%d-*.json' % (mod.ID, seed))):
+        os.unlink(old)
     sizes = mod.SIZES[tier]
     ncases = sizes if isinstance(sizes, int) else sizes['cases']
     ncases = int(os.environ.get('VERIF_CASES', ncases))
